@@ -54,3 +54,69 @@ pub assume_specification<T: Clone> [ <[T]>::to_vec ] (s: &[T]) -> (r: Vec<T>)
     ensures r@ == s@;
 pub assume_specification<T> [ std::mem::replace::<T> ] (dest: &mut T, src: T) -> (r: T)
     ensures r == *old(dest), *final(dest) == src;
+
+// ---------------- N6 shims: `format!` ----------------
+/// `format!("{a}{b}")` for Display of strings is concatenation
+#[verifier::external_body]
+pub fn vp_str_cat(a: &str, b: &str) -> (r: String)
+    ensures r@ == a@ + b@,
+{ format!("{a}{b}") }
+/// error *messages* are not part of any property: an arbitrary string over-approximates them
+#[verifier::external_body]
+pub fn vp_opaque_string() -> (r: String)
+{ String::new() }
+
+// ---------------- std (continued) ----------------
+pub assume_specification<T, E, F, O: FnOnce(E) -> Result<T, F>> [ Result::<T, E>::or_else ] (r: Result<T, E>, op: O) -> (out: Result<T, F>)
+    requires r matches Err(e) ==> op.requires((e,)),
+    ensures match r { Ok(t) => out == Ok::<T, F>(t), Err(e) => op.ensures((e,), out) };
+
+pub assume_specification<T: Ord> [ core::cmp::min::<T> ] (a: T, b: T) -> (r: T)
+    ensures r == (if vstd::std_specs::cmp::OrdSpec::cmp_spec(&a, &b) == core::cmp::Ordering::Greater { b } else { a });
+
+#[verifier::external_type_specification]
+#[verifier::external_body]
+pub struct ExFromUtf8Error(std::string::FromUtf8Error);
+
+pub open spec fn is_ascii_bytes(b: Seq<u8>) -> bool { forall|i: int| 0 <= i < b.len() ==> #[trigger] b[i] < 128 }
+pub open spec fn is_ascii_chars(c: Seq<char>) -> bool { forall|i: int| 0 <= i < c.len() ==> (#[trigger] c[i] as u32) < 128 }
+
+pub assume_specification [ String::from_utf8 ] (v: Vec<u8>) -> (r: Result<String, std::string::FromUtf8Error>)
+    ensures
+        is_ascii_bytes(v@) ==> r is Ok,
+        r matches Ok(s) ==> utf8(s@) == v@;
+pub assume_specification [ String::as_bytes ] (s: &String) -> (r: &[u8])
+    ensures r@ == utf8(s@);
+/// lossy UTF-8 decoding as a total function
+pub uninterp spec fn lossy(b: Seq<u8>) -> Seq<char>;
+/// N13 shim for `String::from_utf8_lossy(b).to_string()` (the `Cow<str>` in between cannot be named in a specification)
+#[verifier::external_body]
+pub fn vp_lossy_string(b: &[u8]) -> (r: String)
+    ensures r@ == lossy(b@),
+{ String::from_utf8_lossy(b).to_string() }
+
+pub assume_specification [ Ipv4Addr::octets ] (a: &Ipv4Addr) -> (r: [u8; 4])
+    ensures r@ == ip4_octets(*a);
+pub assume_specification [ Ipv6Addr::octets ] (a: &Ipv6Addr) -> (r: [u8; 16])
+    ensures r@ == ip6_octets(*a);
+pub assume_specification [ <Ipv4Addr as From<[u8; 4]>>::from ] (v: [u8; 4]) -> (r: Ipv4Addr)
+    ensures ip4_octets(r) == v@;
+pub assume_specification [ <Ipv6Addr as From<[u8; 16]>>::from ] (v: [u8; 16]) -> (r: Ipv6Addr)
+    ensures ip6_octets(r) == v@;
+pub assume_specification [ SocketAddrV4::new ] (ip: Ipv4Addr, port: u16) -> (r: SocketAddrV4)
+    ensures sa4_ip(r) == ip, sa4_port(r) == port;
+pub assume_specification [ SocketAddrV6::new ] (ip: Ipv6Addr, port: u16, flow: u32, scope: u32) -> (r: SocketAddrV6)
+    ensures sa6_ip(r) == ip, sa6_port(r) == port, sa6_flow(r) == flow, sa6_scope(r) == scope;
+pub open spec fn sa_ip(s: SocketAddr) -> IpAddr {
+    match s { SocketAddr::V4(a) => IpAddr::V4(sa4_ip(a)), SocketAddr::V6(a) => IpAddr::V6(sa6_ip(a)) }
+}
+pub open spec fn sa_port(s: SocketAddr) -> u16 {
+    match s { SocketAddr::V4(a) => sa4_port(a), SocketAddr::V6(a) => sa6_port(a) }
+}
+pub assume_specification [ SocketAddr::ip ] (s: &SocketAddr) -> (r: IpAddr)
+    ensures r == sa_ip(*s);
+pub assume_specification [ SocketAddr::port ] (s: &SocketAddr) -> (r: u16)
+    ensures r == sa_port(*s);
+
+pub assume_specification [ <Bytes as AsRef<[u8]>>::as_ref ] (b: &Bytes) -> (r: &[u8])
+    ensures r == bytes_ref(b);
